@@ -18,7 +18,8 @@ var run *ev.Run
 func TestMain(m *testing.M) {
 	run = ev.Start("C09", "exploration",
 		"each shard runs under a CPU affinity of L in {1,2,3,4,16} CPUs (taskset), which is the runner's parallelism limit (runtime.NumCPU, asserted). "+
-			"rapid draws acyclic graphs biased to fans wider than L (up to L+10 ready targets) with 0-3 scheduling points per body and a schedule "+
+			"rapid draws graphs biased to fans wider than L (up to L+10 ready targets; a quarter of them with a dependency cycle closed by a back edge; a third "+
+			"of the targets carry on after a failed dependency, as a runner.Target may) with 0-3 scheduling points per body and a schedule "+
 			"(cooperative token scheduler over runner.go's scheduling points, or delay injection). Harness Targets keep a counter of targets executing: "+
 			"+1 inside LoadTarget/Evaluate, -1 around EvaluateTargets; every +1 happens after the slot is taken and every -1 before it is returned, so the "+
 			"counter never exceeds the slots held. Oracle: counter <= L at every instant; the build completes (a leaked slot or a slot held while waiting "+
@@ -37,8 +38,11 @@ func TestMain(m *testing.M) {
 }
 
 func exec(c rungraph.Case) (v ev.Verdict) {
+	if c.Paths() > 4096 {
+		return ev.Verdict{Skip: "too-many-paths"}
+	}
 	if c.HasCycle() {
-		return ev.Verdict{Skip: "cyclic"}
+		v.Classes = append(v.Classes, "cyclic")
 	}
 	o := rungraph.Execute(&c, 30*time.Second)
 	L := o.Limit
@@ -104,6 +108,19 @@ func gen(t *rapid.T) rungraph.Case {
 		if rapid.IntRange(0, 9).Draw(t, "unk") == 7 && i != 0 {
 			nodes[i].Unknown = true
 			nodes[i].Reqs = nil
+		}
+		nodes[i].Tolerant = rapid.IntRange(0, 2).Draw(t, "tolerant") == 2
+	}
+	// sometimes close a cycle: a back edge from a later node to an earlier one, requested first or last
+	if len(nodes) >= 2 && rapid.IntRange(0, 3).Draw(t, "cycle") == 3 {
+		from := rapid.IntRange(1, len(nodes)-1).Draw(t, "from")
+		to := rapid.IntRange(0, from).Draw(t, "to")
+		if !nodes[from].Unknown {
+			if len(nodes[from].Reqs) == 0 || rapid.Bool().Draw(t, "ownreq") {
+				nodes[from].Reqs = append([][]int{{to}}, nodes[from].Reqs...)
+			} else {
+				nodes[from].Reqs[0] = append(nodes[from].Reqs[0], to)
+			}
 		}
 	}
 	return rungraph.Case{Nodes: nodes, Root: 0, Pol: rungraph.GenPolicy(t, 3)}
